@@ -11,6 +11,15 @@
 //	     C   <x>.x509CAService.CreateCertificate      R   <x>.x509CAService.RenewCertificate
 //	     V/G carry "!" when the call is `if err := …; err != nil { … return }` (every branch of the
 //	     body ends in a return), "?" otherwise
+//	st=paths fn=tpl:<function>  ->  everything that happens, in source order, to the variable the
+//	     function hands to the CAS as `Template:` — from its definition up to the CAS call:
+//	     def            the variable is defined (`leaf := …`)
+//	     =<Field>       assignment to a field of it (`certTpl.DNSNames = …`)
+//	     <name>         a call that receives it as an argument (`m.Enforce(leaf)` -> Enforce)
+//	     V! / G!        the checked constraints validation / gate *on that very variable*
+//	     C / R          the CAS call with `Template: <that variable>`
+//	     so "what is checked is what is signed" is visible as: nothing but read-only calls
+//	     between the last V!/G! and C/R
 //	st=paths fn=*          ->  all functions of package authority that make one of these calls
 //	st=paths fn=frontends  ->  every call of SignWithContext / RenewContext / Rekey outside
 //	                           authority/tls.go (file:function>method): the ways into the gate
@@ -130,6 +139,140 @@ func parseDir(fset *token.FileSet, dir string) []*ast.File {
 	return out
 }
 
+// casTemplate returns the identifier given as `Template:` to the first X.509 CAS call.
+func casTemplate(fd *ast.FuncDecl) (name string, cas *ast.CallExpr) {
+	ast.Inspect(fd.Body, func(n ast.Node) bool {
+		if cas != nil {
+			return false
+		}
+		call, ok := n.(*ast.CallExpr)
+		if !ok {
+			return true
+		}
+		if t := classify(call); (t != "C" && t != "R") || len(call.Args) != 1 {
+			return true
+		}
+		u, ok := call.Args[0].(*ast.UnaryExpr)
+		if !ok {
+			return true
+		}
+		lit, ok := u.X.(*ast.CompositeLit)
+		if !ok {
+			return true
+		}
+		for _, el := range lit.Elts {
+			kv, ok := el.(*ast.KeyValueExpr)
+			if !ok {
+				continue
+			}
+			if k, ok := kv.Key.(*ast.Ident); ok && k.Name == "Template" {
+				if id, ok := kv.Value.(*ast.Ident); ok {
+					name, cas = id.Name, call
+				} else {
+					name, cas = "?", call
+				}
+			}
+		}
+		return true
+	})
+	return name, cas
+}
+
+func isIdent(e ast.Expr, name string) bool {
+	if u, ok := e.(*ast.UnaryExpr); ok && u.Op == token.AND {
+		e = u.X
+	}
+	id, ok := e.(*ast.Ident)
+	return ok && id.Name == name
+}
+
+// traceTemplate lists what happens to the CAS template variable up to the CAS call.
+func traceTemplate(fd *ast.FuncDecl) (string, bool) {
+	name, cas := casTemplate(fd)
+	if cas == nil {
+		return "", false
+	}
+	if name == "?" {
+		return "template-not-a-variable", true
+	}
+	checked := map[*ast.CallExpr]bool{}
+	ast.Inspect(fd.Body, func(n ast.Node) bool {
+		ifs, ok := n.(*ast.IfStmt)
+		if !ok || ifs.Init == nil {
+			return true
+		}
+		as, ok := ifs.Init.(*ast.AssignStmt)
+		if !ok || len(as.Rhs) != 1 {
+			return true
+		}
+		if call, ok := as.Rhs[0].(*ast.CallExpr); ok && isErrNotNil(ifs.Cond) && terminates(ifs.Body) {
+			checked[call] = true
+		}
+		return true
+	})
+	var toks []string
+	done := false
+	ast.Inspect(fd.Body, func(n ast.Node) bool {
+		if done {
+			return false
+		}
+		switch v := n.(type) {
+		case *ast.AssignStmt:
+			for _, l := range v.Lhs {
+				if id, ok := l.(*ast.Ident); ok && id.Name == name {
+					if v.Tok == token.DEFINE {
+						toks = append(toks, "def")
+					} else {
+						toks = append(toks, "reassigned")
+					}
+				}
+				if x, f, ok := sel(l); ok && isIdent(x, name) {
+					toks = append(toks, "="+f)
+				}
+			}
+		case *ast.CallExpr:
+			if v == cas {
+				toks = append(toks, classify(v))
+				done = true
+				return false
+			}
+			takes := false
+			for _, a := range v.Args {
+				if isIdent(a, name) {
+					takes = true
+				}
+			}
+			if !takes {
+				// a method called on the variable itself could change it as well
+				if x, m, ok := sel(v.Fun); ok && isIdent(x, name) {
+					toks = append(toks, "."+m)
+				}
+				return true
+			}
+			switch t := classify(v); t {
+			case "V", "G":
+				if checked[v] {
+					toks = append(toks, t+"!")
+				} else {
+					toks = append(toks, t+"?")
+				}
+			default:
+				_, m, ok := sel(v.Fun)
+				if !ok {
+					if id, isId := v.Fun.(*ast.Ident); isId {
+						m = id.Name
+					} else {
+						m = "call"
+					}
+				}
+				toks = append(toks, m)
+			}
+		}
+		return true
+	})
+	return strings.Join(toks, " "), true
+}
+
 func main() {
 	out := flag.String("out", "", "output file")
 	flag.Int("n", 0, "unused")
@@ -146,7 +289,8 @@ func main() {
 
 	// 1. package authority: order of the calls per function
 	per := map[string]string{}
-	for _, f := range parseDir(fset, filepath.Join(root, "authority")) {
+	files := parseDir(fset, filepath.Join(root, "authority"))
+	for _, f := range files {
 		for _, d := range f.Decls {
 			fd, ok := d.(*ast.FuncDecl)
 			if !ok || fd.Body == nil {
@@ -194,6 +338,19 @@ func main() {
 			}
 		}
 	}
+	// 1b. per function that reaches the CAS: the life of the template variable
+	tpl := map[string]string{}
+	for _, f := range files {
+		for _, d := range f.Decls {
+			fd, ok := d.(*ast.FuncDecl)
+			if !ok || fd.Body == nil {
+				continue
+			}
+			if t, ok := traceTemplate(fd); ok {
+				tpl[fd.Name.Name] = t
+			}
+		}
+	}
 	var fns []string
 	for fn := range per {
 		fns = append(fns, fn)
@@ -210,6 +367,19 @@ func main() {
 		}
 	}
 	o.Case("st=paths fn=*", strings.Join(fns, ","))
+	for _, fn := range []string{"signX509", "renewContext", "GetTLSCertificate"} {
+		if _, ok := tpl[fn]; !ok {
+			tpl[fn] = "-"
+		}
+	}
+	var tfns []string
+	for fn := range tpl {
+		tfns = append(tfns, fn)
+	}
+	sort.Strings(tfns)
+	for _, fn := range tfns {
+		o.Case("st=paths fn=tpl:"+fn, tpl[fn])
+	}
 
 	// 2. whole repository: ways into the gate, and who can create a certificate
 	var fronts, creators []string
